@@ -106,7 +106,14 @@ def to_cells(spec, ovs):
 
 def to_fnames(spec, ovs):
     """Values supplied for formula-defined names: {index: value} for xlref.wb.evaluate(fname_over=...)."""
-    return {ov[1]: ov[2] for ov in ovs if ov[0] == 'fname'}
+    out = {ov[1]: ov[2] for ov in ovs if ov[0] == 'fname'}
+    for i, v in list(out.items()):
+        # a value supplied for a name defined as another name reaches that name too, unless it is supplied itself
+        f = spec['fnames'][i]['f']
+        while f[0] == 'fname' and f[1] not in out:
+            out[f[1]] = v
+            f = spec['fnames'][f[1]]['f']
+    return out
 
 
 def array_cells(spec):
@@ -237,6 +244,8 @@ def ov_labels(spec, ovs):
     for ov in ovs:
         if ov[0] == 'fname':
             lb.add('ov:formula-name')
+            if spec['fnames'][ov[1]]['f'][0] == 'fname':
+                lb.add('ov:formula-name-alias')
             continue
         if ov[0] == 'cell':
             lb.add('ov:formula-cell' if tuple(ov[1]) in forms else 'ov:const-cell')
